@@ -119,6 +119,49 @@ def histories():
         y2 = b.state(); b.set_der(y2, ufun("g", 1, [y2, t["u"]]))
         return a, b
     H["state-added-after-transcription"] = new_state_after
+
+    # ---- multi-stage: changes made on a SUB-STAGE after a query must reach the next transcription as well -----
+    def _two(m):
+        from rockit import Ocp, MultipleShooting, SingleShooting, DirectCollocation
+        M = dict(MS=MultipleShooting, SS=SingleShooting, DC=DirectCollocation)[m]
+        ocp = Ocp()
+        parts = []
+        for i in range(2):
+            s = ocp.stage(t0=float(i), T=1.0)
+            x = s.state(); u = s.control()
+            s.set_der(x, ufun("f%d" % i, 1, [x, u]))
+            s.subject_to(ufun("c%d" % i, 1, [x, u]) <= 1)
+            s.add_objective(s.integral(ufun("l%d" % i, 1, [x, u])))
+            s.method(M(N=2, M=1) if m != "DC" else M(N=2, M=1, degree=2))
+            parts.append((s, x, u))
+        ocp.subject_to(parts[0][0].at_tf(parts[0][1]) == parts[1][0].at_t0(parts[1][1]))
+        ocp.solver("ipopt")
+        return ocp, parts
+
+    def sub_constraint_after(m):
+        a, pa = _two(m); a._transcribed; pa[1][0].subject_to(ufun("extra", 1, [pa[1][2]]) <= 0.6)
+        b, pb = _two(m); pb[1][0].subject_to(ufun("extra", 1, [pb[1][2]]) <= 0.6)
+        return a, b
+    H["substage-subject_to-after-transcription"] = sub_constraint_after
+
+    def sub_objective_after(m):
+        a, pa = _two(m); a._transcribed; pa[0][0].add_objective(pa[0][0].at_tf(ufun("mm", 1, [pa[0][1]])))
+        b, pb = _two(m); pb[0][0].add_objective(pb[0][0].at_tf(ufun("mm", 1, [pb[0][1]])))
+        return a, b
+    H["substage-add_objective-after-transcription"] = sub_objective_after
+
+    def sub_method_after(m):
+        from rockit import MultipleShooting
+        a, pa = _two(m); a._transcribed; pa[1][0].method(MultipleShooting(N=3))
+        b, pb = _two(m); pb[1][0].method(MultipleShooting(N=3))
+        return a, b
+    H["substage-method-after-transcription"] = sub_method_after
+
+    def sub_set_T_after(m):
+        a, pa = _two(m); a._transcribed; pa[1][0].set_T(2.0)
+        b, pb = _two(m); pb[1][0].set_T(2.0)
+        return a, b
+    H["substage-set_T-after-transcription"] = sub_set_T_after
     return H
 
 
